@@ -509,6 +509,11 @@ func checkReal(r *vt.Run, t vt.TB, s realSpec) {
 		pre = append(pre, oracle.Stmt{SQL: "PRAGMA encoding='UTF-16le'"})
 	case "utf16be":
 		pre = append(pre, oracle.Stmt{SQL: "PRAGMA encoding='UTF-16be'"})
+	case "wal-before-first-table":
+		// WAL mode switched on before anything was created: the main file's
+		// header has no schema format and no text encoding yet (both 0), and
+		// says WAL; every table and row is in the -wal file
+		pre = append(pre, oracle.Stmt{SQL: "PRAGMA journal_mode=WAL", Fetch: true})
 	}
 	stmts := append(pre, []oracle.Stmt{
 		{SQL: "CREATE TABLE empty1 (a, b)"},
@@ -521,7 +526,7 @@ func checkReal(r *vt.Run, t vt.TB, s realSpec) {
 	}
 	res, err := env.Create("c15", path, s.PageSize, 0, stmts)
 	sqdb.MustOK(r, t, "build "+s.Kind, res, err, len(stmts)+2)
-	if s.Kind != "wal-open" && !strings.HasPrefix(s.Kind, "switch-to-wal") {
+	if s.Kind != "wal-open" && s.Kind != "wal-before-first-table" && !strings.HasPrefix(s.Kind, "switch-to-wal") {
 		env.O.Close("c15")
 	}
 	defer env.O.Close("c15")
@@ -546,6 +551,17 @@ func checkReal(r *vt.Run, t vt.TB, s realSpec) {
 		return
 	}
 	defer db.Close()
+	if wantReject {
+		// "at open": a handle on such a file is not handed out at all
+		var names []string
+		low := sqlittle.VerifLow(db)
+		if lerr := low.RLock(); lerr == nil {
+			names, _ = low.Tables()
+			low.RUnlock()
+		}
+		r.Violation(t, s, "real:opened:"+s.Kind, "%s database written by SQLite: Open succeeds (tables seen through the handle: %v)", s.Kind, names)
+		return
+	}
 	rows, err := read(db)
 	if wantReject {
 		if err == nil {
@@ -637,7 +653,7 @@ func TestC15RealEnum(t *testing.T) {
 		return
 	}
 	for _, ps := range []int{512, 1024, 4096, 65536} {
-		for _, k := range []string{"utf8", "wal-open", "wal-closed", "utf16le", "utf16be", "switch-to-wal", "switch-to-wal-two-handles"} {
+		for _, k := range []string{"utf8", "wal-open", "wal-closed", "utf16le", "utf16be", "switch-to-wal", "switch-to-wal-two-handles", "wal-before-first-table"} {
 			checkReal(r, t, realSpec{k, ps})
 		}
 	}
